@@ -14,6 +14,7 @@ import (
 )
 
 var errSource = errors.New("simulated source failure")
+var errCallerGaveUp = errors.New("the caller gave up (custom cancellation cause)")
 
 const lateTimeout = time.Hour
 
@@ -419,7 +420,10 @@ func (r *run) stepReport(op *Op) {
 	}
 	loops0 := r.snapshotLoops()
 
-	ctx, cancel := context.WithCancel(r.liveCtx)
+	// the caller's context carries a cause of its own: what a report returns
+	// when that context ends must still be a context error (errors.Is Canceled)
+	ctx, cancelCause := context.WithCancelCause(r.liveCtx)
+	cancel := func() { cancelCause(errCallerGaveUp) }
 	defer cancel()
 	if op.Ctx == "pre" {
 		cancel()
